@@ -154,6 +154,7 @@ func (r writeRec) key() string {
 }
 
 type State struct {
+	binds  map[string]Val // results of calls named by bind clauses of the function under verification
 	heap   map[int]Val
 	pc     []*Term
 	writes map[string]writeRec
@@ -193,6 +194,12 @@ func (f *Frame) clone() *Frame {
 
 func (s *State) clone() *State {
 	n := &State{heap: make(map[int]Val, len(s.heap)), writes: make(map[string]writeRec, len(s.writes)), ghost: make(map[string]Val, len(s.ghost))}
+	if len(s.binds) > 0 {
+		n.binds = make(map[string]Val, len(s.binds))
+		for k, v := range s.binds {
+			n.binds[k] = v
+		}
+	}
 	for k, v := range s.heap {
 		n.heap[k] = v
 	}
